@@ -216,6 +216,40 @@ theorem verifyLoop_flat (P : Prims) (key pkt : Bytes) (off : Nat) (pre : List (N
     simp only [flat, e]
 
 
+/-- a MESSAGE-INTEGRITY attribute whose length field is not 20 — zero-length, a prefix of the right HMAC,
+21, 24 … — is rejected whatever its value -/
+theorem verifyLoop_hit_badlen (P : Prims) (key pkt : Bytes) (off : Nat) (v rest : Bytes) (hv : v.length < 65536)
+    (hl : v.length ≠ 20) : verifyLoop P key pkt off (tlv 8 v ++ rest) = false := by
+  simp only [tlv, be16, List.cons_append, List.nil_append, List.append_assoc]
+  rw [verifyLoop]
+  have h8 : rd16 (UInt8.ofNat (8 / 256)) (UInt8.ofNat 8) = 8 := by decide
+  simp only [h8, rd16_be16 hv]
+  have h1 : ¬ v.length > (v ++ (zeros (pad4 v.length) ++ rest)).length := by simp
+  simp [hl]
+
+/-- the FIRST MESSAGE-INTEGRITY attribute decides, and only a 20-byte value equal to the HMAC of the
+message prefix can pass: whatever precedes it (no type-8 attribute) and whatever follows it -/
+theorem verifyLoop_first_mi (P : Prims) (key pkt : Bytes) (off : Nat) (pre : List (Nat × Bytes)) (v rest : Bytes)
+    (hb : ∀ p ∈ pre, p.1 < 65536 ∧ p.2.length < 65536 ∧ p.1 ≠ 8) (hv : v.length < 65536) :
+    verifyLoop P key pkt off (flat pre ++ (tlv 8 v ++ rest)) =
+      (decide (v.length = 20) &&
+       decide (v = P.hmac key (writeLen (pkt.take (off + (flat pre).length)) (off + (flat pre).length - 20 + 24)))) := by
+  by_cases hl : v.length = 20
+  · rw [verifyLoop_flat P key pkt off pre v rest hb hl]; simp [hl]
+  · simp only [hl, decide_false, Bool.false_and]
+    induction pre generalizing off with
+    | nil => simpa [flat] using verifyLoop_hit_badlen P key pkt off v rest hv hl
+    | cons p ps ih =>
+      obtain ⟨t, w⟩ := p
+      have hp := hb (t, w) (by simp)
+      simp only [flat, List.map_cons, List.flatten_cons, List.append_assoc] at *
+      rw [verifyLoop_skip P key pkt off t w _ hp.1 hp.2.1 hp.2.2]
+      exact ih _ (fun q hq => hb q (by simp [hq]))
+
+theorem codeAuth_le_verifyMI (P : Prims) (ufrag pwd pkt : Bytes) (h : verifyMI P pwd pkt = false) :
+    codeAuth P ufrag pwd pkt = false := by
+  unfold codeAuth; split <;> simp [h]
+
 def isUsername : Attr → Bool
   | .username _ => true
   | _ => false
